@@ -146,7 +146,7 @@ def _solve_one(ob, timeout_ms, mode):
         st = "unsat" if out.splitlines()[:1] == ["unsat"] else "unknown"
         return st, time.time() - t0, "cvc5-1.0.3", (None if st == "unsat" else out[:200])
     if mode == "inst":
-        fs = instantiate(hyps, neg)
+        fs = instantiate(hyps, neg, rounds=int(ob.meta.get("inst_rounds", 1)), extra_idx=ob.meta.get("idx", ()))
         s.add(fs)
         s.add(neg)
         qf = not has_quant(fs)
